@@ -188,7 +188,7 @@ theorem loop_ok (p : Params) (hy : Hyp p) : ∀ (fuel : Nat) (e : Emit) (M : Sta
     register holding that variable in destination form -/
 theorem regphase_correct (p : Params) (hy : Hyp p) (e : Emit) (M : State) (hw : WF p e M) (fuel : Nat) (e' : Emit)
     (h : shuffleLoop p.cfg p.n fuel e {} = .ok e') :
-    ∃ M', run p.vis p.f.saOffSp p.f.saOffSa (spId p.cfg.arch) p.M0 e'.out = some M' ∧
+    ∃ M', run p.vis p.f p.cfg.arch p.M0 e'.out = some M' ∧
       ∀ i, i < p.n → destOk M' i (.reg (groupOf (p.out i).regType) (p.out i).regId) = true := by
   obtain ⟨M', hw', hdone⟩ := loop_ok p hy fuel e M {} hw rfl e' h
   refine ⟨M', hw'.runs, fun i hi => ?_⟩
